@@ -462,4 +462,7 @@ func c05Round4(s *source, e *emitter) {
 	e.c05Cond(t, s, "core/syncx/timeoutlimit.go", "TimeoutLimit.Borrow", "tlTimeoutCond", 2)
 	e.c05Cond(t, s, "core/threading/workergroup.go", "WorkerGroup.Start", "workerGroupLoopCond", 0)
 	e.c05ForHeader(s, "core/threading/workergroup.go", "WorkerGroup.Start", "workerGroupFor")
+	e.c05Stores(s, "core/syncx/pool.go", "WithMaxAge", "poolMaxAgeStores")
+	e.c05Details(s, mrf, "Finish", "mrFinishCalls", map[string]bool{"WithWorkers": true})
+	e.c05Details(s, mrf, "FinishVoid", "mrFinishVoidCalls", map[string]bool{"WithWorkers": true})
 }
